@@ -77,6 +77,9 @@ pub enum CrashPoint {
     /// run has written `after` bytes; the run goes on, handles the error and exits normally.
     /// The state is whatever that run leaves behind (re-executed live, not materialised).
     WriteError { after: u64 },
+    /// Not a kill either: one step of the write procedure fails with EIO ("fsync", "rename") or
+    /// EACCES ("open_write"); the run goes on, handles the error and exits normally.
+    OpError { kind: String },
 }
 
 impl CrashPoint {
@@ -84,7 +87,7 @@ impl CrashPoint {
         match self {
             CrashPoint::Prefix { k, cut } => Disk::crash_state(d0, journal, *k, *cut),
             CrashPoint::PowerLoss { k, ino, keep } => Disk::power_loss_state(d0, journal, *k, *ino, *keep),
-            CrashPoint::WriteError { .. } => unreachable!("write-error states are produced by re-executing the run"),
+            CrashPoint::WriteError { .. } | CrashPoint::OpError { .. } => unreachable!("error states are produced by re-executing the run"),
         }
     }
 }
@@ -294,6 +297,7 @@ fn describe_cut(d0: &Disk, journal: &[Op], cp: &CrashPoint) -> (String, String) 
             };
             (format!("crash at a step boundary: after {}{}", kind, target), format!("{} {}", head, after_what))
         }
+        CrashPoint::OpError { kind } => (format!("{} fails in the write procedure", kind), format!("{} every {} of the run fails ({}); the run handles the error and exits", head, kind, if kind == "open_write" { "EACCES" } else { "EIO" })),
         CrashPoint::WriteError { after } => {
             // which write, and where inside the row, does byte `after` fall?
             let mut seen = 0u64;
@@ -376,7 +380,7 @@ impl C14 {
             // A shrink candidate may have changed the journal: a crash point outside it explores nothing.
             let k = match p {
                 CrashPoint::Prefix { k, .. } | CrashPoint::PowerLoss { k, .. } => *k,
-                CrashPoint::WriteError { .. } => 0,
+                CrashPoint::WriteError { .. } | CrashPoint::OpError { .. } => 0,
             };
             return if k <= journal.len() { vec![p.clone()] } else { vec![] };
         }
@@ -469,6 +473,9 @@ impl C14 {
             }
             for o in offs {
                 pts.push(CrashPoint::WriteError { after: o });
+            }
+            for kind in ["fsync", "rename", "open_write"] {
+                pts.push(CrashPoint::OpError { kind: kind.to_string() });
             }
         }
         pts
@@ -592,10 +599,16 @@ impl Engine for C14 {
         let mut distinct_states = 0usize;
         for cp in points {
             let disk = match &cp {
-                CrashPoint::WriteError { after } => {
-                    // live re-execution of the victim over the same starting disk, with the disk filling up
+                CrashPoint::WriteError { .. } | CrashPoint::OpError { .. } => {
+                    // live re-execution of the victim over the same starting disk, with the fault armed
                     with_world(|w| w.fs.disk = d0.clone());
-                    let o = run_step_with(&boc, &sc.victim, sc.max_write, sc.hash_seed, 0, FsFaultSpec { enospc_after_bytes: Some(*after), ..FsFaultSpec::default() });
+                    let spec = match &cp {
+                        CrashPoint::WriteError { after } => FsFaultSpec { enospc_after_bytes: Some(*after), ..FsFaultSpec::default() },
+                        CrashPoint::OpError { kind } if kind == "fsync" => FsFaultSpec { fsync_errno: Some(libc::EIO), ..FsFaultSpec::default() },
+                        CrashPoint::OpError { kind } if kind == "rename" => FsFaultSpec { rename_errno: Some(libc::EIO), ..FsFaultSpec::default() },
+                        _ => FsFaultSpec { open_write_errno: Some(libc::EACCES), ..FsFaultSpec::default() },
+                    };
+                    let o = run_step_with(&boc, &sc.victim, sc.max_write, sc.hash_seed, 0, spec);
                     st.bump("sim.processes");
                     if let Some(p) = &o.panic {
                         let (sig, desc) = describe_cut(&d0, &journal, &cp);
@@ -629,6 +642,7 @@ impl Engine for C14 {
             st.bump("probe.crash_states");
             match &cp {
                 CrashPoint::WriteError { .. } => st.bump("fault.write_error_disk_full"),
+                CrashPoint::OpError { kind } => st.bump(&format!("fault.{}_error_in_write_procedure", kind)),
                 CrashPoint::Prefix { cut, .. } if *cut > 0 => st.bump("fault.crash_inside_write"),
                 CrashPoint::Prefix { k, .. } => st.bump(&format!("fault.crash_after_{}", if *k == 0 { "nothing" } else { journal[*k - 1].kind() })),
                 CrashPoint::PowerLoss { keep, .. } => st.bump(if *keep == 0 { "fault.power_loss_unsynced_data_lost" } else { "fault.power_loss_unsynced_data_cut" }),
